@@ -159,6 +159,22 @@ theorem exit_stops_every_handler (lg : Logger) (hl : ∀ h ∈ lg.handlers, Live
   obtain ⟨_, _, _, _, e, _⟩ := hl h hh
   simp [Handler.final, e]
 
+/-- the worker thread of an enqueued handler, as the REGENERATED loop body has it: from any sink state
+it writes EVERY queued message in FIFO order – whatever the text: empty, whitespace only, without a
+line end – and leaves nothing unread; only the sentinel ends the loop, the confirmation token of
+`complete()` is consumed without being written -/
+theorem worker_writes_every_message (k : Sink) (q : List Call) :
+    workerRun Gen.workerOps k q = (q.foldl Sink.write k, []) ∧
+    workerIter Gen.workerOps k .sentinel = none ∧ workerIter Gen.workerOps k .confirm = some k :=
+  ⟨workerRun_all q k, (workerIter_gen k).2.1, (workerIter_gen k).2.2⟩
+
+/-- REFUTING WITNESS for the broken shape "the sentinel is recognised by `if not message: break`":
+a message whose text is empty ends the worker thread, and everything queued after it is never read
+(the calls that put it had returned normally) -/
+theorem falsy_sentinel_test_loses_messages (k : Sink) (c : Call) (rest : List Call) (he : c.2 = []) :
+    workerRun [.get, .confirmIfTrue, .breakIfFalsy, .write] k (c :: rest) = (k, rest) := by
+  simp [workerRun, workerIter, he]
+
 /-- the exit clause in a process FORKED after `add()` (daemonisation: the launcher leaves with
 `os._exit`, the forked process later exits normally): a handler without `enqueue` that this process
 did not create is stopped all the same – its sink is stopped (file closed, end-of-life compression /
